@@ -5,14 +5,25 @@
 (* QoS >= q) and the set that MAY get it (any matching subscription).  Each client has an           *)
 (* acknowledgement policy for the whole scenario.  `low` = clients holding a matching subscription    *)
 (* with a QoS below the message's (signature detail for known findings only).                         *)
+(* Further input dimensions:                                                                           *)
+(*   age[c]   the number of messages c's session has been sent before the scenario begins (the          *)
+(*            session's 16-bit packet id counter starts there: a long-lived session wraps);              *)
+(*   churn    on a publish step: bystanders (clients without subscriptions) connect and disconnect        *)
+(*            while the messages are published;                                                           *)
+(*   cpubx    a single QoS1 PUBLISH of the client model of MqttDelivery!ClientPublish: packet ids          *)
+(*            1..2 re-used once acknowledged, an unacknowledged message sent again with DUP=1, and the     *)
+(*            verdict ("pass" / "drop") the backend pipeline gives on this packet.                          *)
 EXTENDS MqttDelivery, Json, SequencesExt
 
 CONSTANTS GenFilters, MaxSteps,
           GenClients,   \* the clients that subscribe / unsubscribe (all clients are connected)
           Alternate,    \* TRUE: subscription changes and publishes alternate strictly (so that every change of a
                         \* subscription - in particular a re-subscription with another QoS - is preceded and followed by a publish)
-          WithCPub      \* FALSE: no client publishes (narrow universes used to make re-subscriptions with another QoS frequent)
-VARIABLES out, pol, k
+          WithCPub,     \* FALSE: no client publishes (narrow universes used to make re-subscriptions with another QoS frequent)
+          UpOnly,       \* TRUE: nothing but single client PUBLISH packets (cpubx): conversations in which packet ids are re-used,
+                        \* packets dropped by the pipeline and retransmitted with DUP=1 are frequent
+          Ages          \* the values age[c] is drawn from
+VARIABLES out, pol, k, age
 
 (* prompt: PUBACK on receipt; late: only after a retransmission was seen; never; holdfirst: prompt for   *)
 (* everything except the first QoS1 message received, which is never acknowledged (acks out of order)     *)
@@ -21,10 +32,11 @@ Policies == {"prompt", "late", "never", "holdfirst"}
 GInit == /\ subs = {} /\ n = 0 /\ last = [a |-> "init"]
          /\ msgs = <<>> /\ inq = [c \in Clients |-> <<>>] /\ pend = [c \in Clients |-> <<>>] /\ got = [c \in Clients |-> <<>>]
          /\ ackd = [c \in Clients |-> {}] /\ resends = 0 /\ up = <<>> /\ piped = {} /\ upack = <<>> /\ step = [a |-> "init"]
-         /\ pol \in [Clients -> Policies] /\ k = 0
-         /\ out = ToJson([a |-> "init", pol |-> pol])
+         /\ infl = [c \in Clients |-> [p \in PidsUp |-> 0]] /\ byst = {}
+         /\ pol \in [Clients -> Policies] /\ k = 0 /\ age \in [Clients -> Ages]
+         /\ out = ToJson([a |-> "init", pol |-> pol, age |-> age])
 
-Frame == UNCHANGED <<msgs, inq, pend, got, ackd, resends, up, piped, upack, step, pol>>
+Frame == UNCHANGED <<msgs, inq, pend, got, ackd, resends, up, piped, upack, infl, byst, step, pol, age>>
 
 GSub == \E c \in GenClients, f \in GenFilters, q \in QoS :
            /\ Subscribe(c, <<f>>, <<q>>, {1})
@@ -33,19 +45,25 @@ GUnsub == \E c \in GenClients, f \in GenFilters :
            /\ \E s \in subs : s.c = c /\ s.f = f
            /\ Unsubscribe(c, <<f>>)
            /\ out' = ToJson([a |-> "unsub", c |-> c, f |-> f]) /\ Frame
-GPub == \E t \in PubTopics, q \in QoS :
+GPub == \E t \in PubTopics, q \in QoS, churn \in BOOLEAN :
            /\ subs # {}
-           /\ out' = ToJson([a |-> "pub", t |-> t, q |-> q, must |-> SetToSeq(Must(t, q)), may |-> SetToSeq(May(t, q)),
+           /\ out' = ToJson([a |-> "pub", t |-> t, q |-> q, churn |-> churn, must |-> SetToSeq(Must(t, q)), may |-> SetToSeq(May(t, q)),
                                low |-> SetToSeq({c \in Clients : \E s \in subs : s.c = c /\ Matches(s.f, t) /\ s.q < q})])
            /\ UNCHANGED vars /\ Frame
 GCPub == \E c \in Clients, q \in QoS, t \in {TAB}, b \in {1, 4} :      \* b: PUBLISH packets sent back to back
            /\ WithCPub
            /\ out' = ToJson([a |-> "cpub", c |-> c, q |-> q, t |-> t, burst |-> b])
            /\ UNCHANGED vars /\ Frame
+GCPubX == \E c \in Clients, pid \in PidsUp, re \in BOOLEAN, v \in Verdicts :
+           /\ WithCPub
+           /\ ClientPublish(c, pid, 1, TAB, re, v)
+           /\ out' = ToJson([a |-> "cpubx", c |-> c, pid |-> pid, q |-> 1, t |-> TAB, u |-> step'.u, dup |-> re, v |-> v])
+           /\ UNCHANGED <<pol, age>>
 GNext == /\ k < MaxSteps /\ k' = k + 1
-         /\ IF Alternate THEN (IF k % 2 = 0 THEN GSub \/ GUnsub ELSE GPub)
-                          ELSE (GSub \/ GUnsub \/ GPub \/ GCPub)
-GSpec == GInit /\ [][GNext]_<<dvars, out, pol, k>>
+         /\ IF UpOnly THEN GCPubX
+            ELSE IF Alternate THEN (IF k % 2 = 0 THEN GSub \/ GUnsub ELSE GPub)
+                              ELSE (GSub \/ GUnsub \/ GPub \/ GCPub \/ GCPubX)
+GSpec == GInit /\ [][GNext]_<<dvars, out, pol, k, age>>
 
 GenFiltersWide == {FAH, FAB, FPB, FAP}
 GenTopics == {TAB, TAC, TA}
